@@ -329,6 +329,17 @@ def casadi_pairs(M, rec, rng, g, desc, pars, st, combo_list):
             built = D.build(M, desc, ops)
             ic, syms = drive.sym_init(M, built, st, symvals, vals)
             NE, CE = drive.engines(M)
+            if rng.random() < 0.5:
+                # states handed over as EXPRESSIONS of the caller's symbols that leave the value as it is here (a measurement
+                # floored at a far-away tolerance, two estimates fused): whatever the expression looks like, the clamps act on its value
+                import casadi as cs
+
+                wraps = (lambda x: cs.fmax(x, -1e7), lambda x: cs.fmax(-1e7, x), lambda x: cs.fmin(x, 1e9), lambda x: cs.fmax(x, x - 1.0), lambda x: -(-x))
+                for el_, d_ in ic.items():
+                    for nm_ in list(d_):
+                        if nm_ in ("rho", "v", "w") and rng.random() < 0.6:
+                            d_[nm_] = rng.choice(wraps)(d_[nm_])
+                rec.count("own_evaluations_with_states_given_as_expressions")
             built.net.step(init_conditions=ic, engine=CE(st), **opts, **drive.step_pars(pars))
             lay = D.var_layout(desc)
             exprs, index = [], []
